@@ -85,6 +85,7 @@ type ContractDB struct {
 	specFn map[string]*SpecFn
 	detIface map[string]bool // iface pkg.I.M: deterministic
 	sealed   map[string]string // sealed interface -> its only implementation
+	nonnilFns map[string]bool  // purefn name!: result never nil
 }
 
 type SpecFn struct {
@@ -100,7 +101,7 @@ type PredDef struct {
 }
 
 func newContractDB() *ContractDB {
-	return &ContractDB{byFunc: map[string]*Contract{}, preds: map[string]*PredDef{}, specFn: map[string]*SpecFn{}, detIface: map[string]bool{}, sealed: map[string]string{}, typeinv: map[string][]*Clause{}, pureFields: map[string]bool{}, nonnilFields: map[string]bool{}, pureIface: map[string]bool{}, nonnilIface: map[string]bool{}, ifacePreserves: map[string][]string{}, effectFns: map[string]bool{}, closedTerms: map[string]bool{}, pureFns: map[string]bool{}, effectPkgs: map[string]bool{}, observers: map[string]bool{}}
+	return &ContractDB{byFunc: map[string]*Contract{}, preds: map[string]*PredDef{}, specFn: map[string]*SpecFn{}, detIface: map[string]bool{}, sealed: map[string]string{}, nonnilFns: map[string]bool{}, typeinv: map[string][]*Clause{}, pureFields: map[string]bool{}, nonnilFields: map[string]bool{}, pureIface: map[string]bool{}, nonnilIface: map[string]bool{}, ifacePreserves: map[string][]string{}, effectFns: map[string]bool{}, closedTerms: map[string]bool{}, pureFns: map[string]bool{}, effectPkgs: map[string]bool{}, observers: map[string]bool{}}
 }
 
 func splitTags(kw string) (string, []string) {
@@ -207,6 +208,10 @@ func (db *ContractDB) load(path string) error {
 			db.recvOnly = append(db.recvOnly, strings.Fields(rest)...)
 		case "purefn":
 			for _, n := range strings.Fields(rest) {
+				if strings.HasSuffix(n, "!") { // name! : the result is never nil
+					n = strings.TrimSuffix(n, "!")
+					db.nonnilFns[n] = true
+				}
 				db.pureFns[n] = true
 			}
 		case "sealed":
